@@ -146,6 +146,9 @@ def cases(tier, seed):
     case("etch-diag", G, [dev("dev", (0, 1, 0), (2, 2, 1), (1, 1, 1), "etch_diag", etch=True)], bg="diag")
     case("two-devices", (5, 3, 2), [dev("dA", (0, 0, 0), (2, 2, 1), (1, 2, 1), "iso_dyadic"), dev("dB", (3, 1, 0), (2, 1, 2), (1, 1, 1), "iso3_generic", chain="closest")])
     case("etch-plus-device", (5, 3, 2), [dev("dA", (0, 0, 1), (2, 2, 1), (1, 1, 1), "etch_air", etch=True), dev("dB", (3, 0, 0), (2, 2, 1), (2, 1, 1), "iso_generic")])
+    # device order matters for the etch backup handling: an etched device that is NOT first in the list, and two etched devices
+    case("device-then-etch", (5, 3, 2), [dev("dA", (3, 0, 0), (2, 2, 1), (2, 1, 1), "iso_generic"), dev("dB", (0, 0, 1), (2, 2, 1), (1, 1, 1), "etch_air", etch=True)])
+    case("etch-then-etch", (5, 3, 2), [dev("dA", (0, 0, 0), (2, 2, 1), (1, 1, 1), "etch_air", etch=True), dev("dB", (3, 1, 0), (2, 2, 2), (1, 1, 1), "etch_air", etch=True)])
     if not q:
         G2 = (5, 4, 3)
         case("T-cont-iso-222", G2, [dev("dev", (1, 1, 1), (2, 2, 2), (1, 1, 1), "iso_generic")])
